@@ -47,12 +47,34 @@ def parseOp : List String → Option Op
   | ["clearCache"] => some .resetCache
   | _ => none
 
-def stepLine (s : St) (line : String) : St × String :=
+/-- driver state: the model state plus the ids of packets created by `sendIq` (tracked requests).
+Their delivery report is consumed inside the client by the IQ manager and `sendIq` does not return the
+written flag, so those events are not observable on the implementation and are left out of the printed
+observation; for the model a tracked request is an ordinary `send` of a stanza. -/
+structure DSt where
+  s : St
+  iqIds : List Nat
+
+def visible (iqIds : List Nat) : Out → Bool
+  | .report i _ => !iqIds.contains i
+  | _ => true
+
+def stepLine (d : DSt) (line : String) : DSt × String :=
   match words line with
-  | ["reset"] => (init, "ok")
+  | ["reset"] => (⟨init, []⟩, "ok")
+  | ["sendIq", u] =>
+    match parseUp u with
+    | some u =>
+      let ids := d.s.nextId :: d.iqIds
+      let r := step d.s (.send true u)
+      (⟨r.1, ids⟩, obs r.1 (r.2.filter fun o => visible ids o && o != .written u))
+    | none => (d, "bad-op")
+  | ["recv", "iqr"] | ["recv", "iqe"] =>
+    let r := step d.s (.recv .iq)
+    (⟨r.1, d.iqIds⟩, obs r.1 (r.2.filter (visible d.iqIds)))
   | ws =>
     match parseOp ws with
-    | some op => let r := step s op; (r.1, obs r.1 r.2)
-    | none => (s, "bad-op")
+    | some op => let r := step d.s op; (⟨r.1, d.iqIds⟩, obs r.1 (r.2.filter (visible d.iqIds)))
+    | none => (d, "bad-op")
 
-def main : IO Unit := run init stepLine
+def main : IO Unit := run (⟨init, []⟩ : DSt) stepLine
